@@ -448,6 +448,14 @@ func histOps(thorough bool) []histOp {
 			_, err, pan := lib.Decode(x, "CVSS:3.1/AV:N/AC:L/AC:L")
 			return fmt.Sprintf("retry: %s panic=%q", lib.Class(err), pan)
 		}})
+	ops = append(ops, histOp{name: "the garbage collector runs (runtime.GC x2, finalizers get their turn)", kind: 'd', ok: always, run: func(any) string {
+		for i := 0; i < 2; i++ {
+			runtime.GC()
+			runtime.Gosched()
+			time.Sleep(time.Millisecond)
+		}
+		return ""
+	}})
 	ops = append(ops, histOp{name: "fresh objects of every type are constructed (and dropped)", kind: 'd', ok: always, run: func(any) string {
 		for _, ver := range []int{3, 2} {
 			for level := 0; level < 3; level++ {
